@@ -171,12 +171,23 @@ func hash(fileAnnotation FileAnnotation) string {
 		path = fileInfo.ExternalPath()
 	}
 	hash := sha256.New()
-	_, _ = hash.Write([]byte(path))
-	_, _ = hash.Write([]byte(strconv.Itoa(fileAnnotation.StartLine())))
-	_, _ = hash.Write([]byte(strconv.Itoa(fileAnnotation.StartColumn())))
-	_, _ = hash.Write([]byte(strconv.Itoa(fileAnnotation.EndLine())))
-	_, _ = hash.Write([]byte(strconv.Itoa(fileAnnotation.EndColumn())))
-	_, _ = hash.Write([]byte(fileAnnotation.Type()))
-	_, _ = hash.Write([]byte(fileAnnotation.Message()))
+	// Every field is delimited (strings are length-prefixed) so that distinct
+	// annotations cannot produce the same byte sequence.
+	writeString := func(value string) {
+		_, _ = hash.Write([]byte(strconv.Itoa(len(value))))
+		_, _ = hash.Write([]byte{':'})
+		_, _ = hash.Write([]byte(value))
+	}
+	writeInt := func(value int) {
+		_, _ = hash.Write([]byte(strconv.Itoa(value)))
+		_, _ = hash.Write([]byte{':'})
+	}
+	writeString(path)
+	writeInt(fileAnnotation.StartLine())
+	writeInt(fileAnnotation.StartColumn())
+	writeInt(fileAnnotation.EndLine())
+	writeInt(fileAnnotation.EndColumn())
+	writeString(fileAnnotation.Type())
+	writeString(fileAnnotation.Message())
 	return string(hash.Sum(nil))
 }
